@@ -50,6 +50,7 @@ func outPattern(shape PathShape, root, proc, port string, hasIn bool) (string, [
 //	diamond: src(n) -> A ; src -> B ; A.out + B.out -> J(a,b)
 //	params : P(k in 6 values, no inputs) -> Q
 //	extra  : src(n) -> A (creates additional files) -> B
+//	concat : src(n) -> A -> Concatenator -> B
 func Topo(kind string, shape PathShape, goFunc bool, root string, n int) *spec.Spec {
 	s := &spec.Spec{Name: kind + "_" + string(shape), MaxTasks: 4, Sources: map[string]string{}}
 	pk := spec.KCmd
@@ -139,6 +140,14 @@ func Topo(kind string, shape PathShape, goFunc bool, root string, n int) *spec.S
 		p.Feeds = []*spec.Feed{{Port: "k", How: "str", Values: []string{"v1", "v2", "v3", "v4", "v5", "v6"}}}
 		addProc("Q", in, []string{"out"}, nil, nil, spec.KCmd)
 		conn("P.out", "Q.in")
+	case "concat":
+		addSrc("src", n)
+		addProc("A", in, []string{"out"}, nil, map[string]string{"sleep": "25"}, pk)
+		s.Procs = append(s.Procs, &spec.Proc{Name: "CC", Kind: spec.KConcat, OutPath: "merged.txt"})
+		addProc("B", in, []string{"out"}, nil, nil, spec.KCmd)
+		conn("src.out", "A.in")
+		conn("A.out", "CC.in")
+		conn("CC.out", "B.in")
 	case "extra":
 		addSrc("src", n)
 		addProc("A", in, []string{"out"}, nil, nil, spec.KCmd)
